@@ -18,6 +18,7 @@
 -/
 import ChessVerif.Proofs.EpTargetExamplesRun
 import ChessVerif.Props.C02core
+import ChessVerif.Proofs.FenRoundFull
 
 namespace ChessVerif.Props.C02
 open ChessVerif Board
@@ -138,6 +139,11 @@ def C02_uci_full : Prop :=
 
 theorem uci_full_of_roundtrip_full (h : Fen.C11_roundtrip_full) : C02_uci_full :=
   fun K cur b ms hv hfm hrun => uci_moves_refine_partial K cur b ms hv (h b hv hfm) hrun
+
+/-- **C02, UCI half, full statement — proved**: the full FEN round trip of C11 (`Fen.roundtrip_full`,
+    Proofs/FenRoundFull.lean) discharges the hypothesis; `position fen F moves m₁ … mₙ` for the FEN of
+    EVERY valid position and every playable move list installs the position the rule book prescribes. -/
+theorem uci_full : C02_uci_full := uci_full_of_roundtrip_full Fen.roundtrip_full
 
 /-- the same from `position startpos moves m₁ … mₙ`. -/
 theorem uci_startpos_moves_refine (K : Keys) (cur : Board) (ms : List Move)
